@@ -34,6 +34,9 @@ namespace
       RUnit r1, r2;
       UF f1 = make_unit<DT>(n, S1, ORD_ASC, r1, 0), f2 = make_unit<DT>(n, S2, ORD_DESC, r2, 1);
       FilterChain<UF, UF> ch(std::move(f1), std::move(f2));
+      // derived object (deep clone, move-assigned back) and re-invocation (used on another vector before), rotating
+      if((S1 + 2 * S2 + unsigned(op)) % 3 == 0) { FilterChain<UF, UF> d = ch.clone(CloneMode::Deep); ch = std::move(d); c.count("cases_on_derived_filters"); }
+      if((S1 + S2 + unsigned(op)) % 2 == 1 && op < 4) { auto w = xvec<DT>(n, 3); apply_op(ch, w, (op + 1) % 4); c.count("cases_on_previously_used_filters"); }
       if(op < 4)
       {
         auto v = xvec<DT>(n, 8);
@@ -187,6 +190,8 @@ namespace
         for(int j = 0; j < k; ++j) c.check(&seq.find_or_add("f" + stringify(j)) == &seq.at(size_t(j)).second, kname + ": find_or_add", "existing name did not return the existing sub-filter");
       }
       c.check(seq.size() == size_t(k), kname + ": size", "wrong number of links");
+      if((code + unsigned(op)) % 3 == 0) { FilterSequence<UF> d = seq.clone(CloneMode::Deep); seq = std::move(d); c.count("cases_on_derived_filters"); }
+      if((code + unsigned(op)) % 2 == 1 && op < 4) { auto w = xvec<DT>(n, 3); apply_op(seq, w, (op + 1) % 4); c.count("cases_on_previously_used_filters"); }
       if(op < 4)
       {
         auto v = xvec<DT>(n, 11);
@@ -225,6 +230,7 @@ namespace
       c.desc([&]{ return kname + " TupleFilter<Unit,UnitBlocked2> sizes=(" + std::to_string(n1) + "," + std::to_string(n2) + ") S1=" + set_name(S1, n1) + " S2=" + set_name(S2, n2) + " op=" + fop_name[op]; });
       RUnit r1; RUnitB r2;
       TupleFilter<UF, UB> tf(make_unit<DT>(n1, S1, ORD_DESC, r1), make_unitb<DT, 2>(n2, S2, ORD_ASC, false, 0, r2, 1));
+      if((S1 + 2 * S2 + unsigned(op)) % 3 == 0) { TupleFilter<UF, UB> d = tf.clone(CloneMode::Deep); tf = std::move(d); c.count("cases_on_derived_filters"); }
       TupleVector<DV, DVB> v{DV(Index(n1)), DVB(Index(n2))};
       { std::vector<DT> x(size_t(n1 + 2 * n2)); for(size_t i = 0; i < x.size(); ++i) x[i] = DT(xval(Index(i), 12)); set_flat(v, x); }
       check_vec(c, kname + " TupleFilter<Unit,UnitBlocked2>", tf, v, op, [&](Ref& r) {
@@ -282,6 +288,7 @@ namespace
       {
         PowerFilter<UF, 2> pf;
         for(int j = 0; j < 2; ++j) pf.get(j) = make_unit<DT>(n, (S >> (n * j)) & ((1u << n) - 1u), ORD_ASC, refs[size_t(j)], j);
+        if((S + unsigned(op)) % 3 == 0) { PowerFilter<UF, 2> d = pf.clone(CloneMode::Deep); pf = std::move(d); c.count("cases_on_derived_filters"); }
         PowerVector<DV, 2> v{Index(n)}; set_flat(v, x);
         check_vec(c, kname + " PowerFilter<Unit,2>", pf, v, op, model, no_cons);
       }
